@@ -1,5 +1,5 @@
 """Per-property policy: which rules decide which clause, floors, scope, wording for the evidence."""
-from . import rules_conv, rules_table
+from . import rules_conv, rules_table, rules_codec
 
 import json, os
 
@@ -48,6 +48,23 @@ PROPS = {
             {"run": rules_table.run_typemap, "floor": 120, "scope": "anchors"},
             {"run": rules_table.run_regrange, "floor": 6},
             {"run": rules_table.run_memcpysize, "floor": 3, "ctx": {"files": ["mptcore/types/type_traits.c"]}},
+        ],
+    },
+    "C01": {
+        "explanation": "CODECPAIR: for every framing id the encoder and decoder switches return two halves of one codec: both present, both regular or both "
+                       "tail-inline wrappers of a registered regular pair; the encoder's block limit (`++code == E`) and zero-pair parameters (offset, code range) "
+                       "are checked against the decoder's code->(data bytes, zero bytes) table, obtained by abstractly evaluating the decoder's two length "
+                       "formulas for every code 1..255; every named framing is handled; the python client's block limit equals the C one and each branch "
+                       "that restarts a block appends the next code byte.",
+        "not_decided": "encode/decode identity for every message, split and capacity schedule; 'no zero byte inside a frame'; byte-level bounds of the encoders "
+                       "(relational over off/code/left); python encoder beyond the two structural facts",
+        "assumptions": [],
+        "technique": "table extraction from dispatch switches + abstract evaluation of the decoder's length formulas per code value + python ast query",
+        "level_text": "Decides a necessary condition of the round trip that is visible in tables and constants: selected encoder/decoder belong together and agree on "
+                      "every code value the encoder can emit (255 codes x 2 regular codecs evaluated). Not the byte-level round trip.",
+        "level_note": "trusts clang constant folding of the macro-expanded formulas; pattern anchors: `++code == E`, conditional `c + K`, `_ctx & 0xff`",
+        "rules": [
+            {"run": rules_codec.run, "floor": 20},
         ],
     },
 }
